@@ -46,14 +46,18 @@ pub(crate) fn upconvert_kerning(
         }
     }
 
-    // Duplicate kerning groups with a new name.
+    // Duplicate kerning groups with a new name. A new name must also not be equal to a kerning
+    // key of its side, or the renamed pairs would overwrite the pairs stored under that key.
     let mut groups_new = groups.clone();
+    let kerning_firsts: BTreeSet<&Name> = kerning.keys().collect();
+    let kerning_seconds: BTreeSet<&Name> = kerning.values().flat_map(|s| s.keys()).collect();
 
     let mut groups_first_old_to_new: HashMap<Name, Name> = HashMap::new();
     for first in &groups_first {
         let first_new = make_unique_group_name(
             Name::new(&format!("public.kern1.{}", first.replace("@MMK_L_", ""))).unwrap(),
             &groups_new,
+            &kerning_firsts,
         );
         groups_first_old_to_new.insert(first.clone(), first_new.clone());
         groups_new.insert(first_new, groups_new.get(first).unwrap().clone());
@@ -63,6 +67,7 @@ pub(crate) fn upconvert_kerning(
         let second_new = make_unique_group_name(
             Name::new(&format!("public.kern2.{}", second.replace("@MMK_R_", ""))).unwrap(),
             &groups_new,
+            &kerning_seconds,
         );
         groups_second_old_to_new.insert(second.clone(), second_new.clone());
         groups_new.insert(second_new, groups_new.get(second).unwrap().clone());
@@ -84,14 +89,19 @@ pub(crate) fn upconvert_kerning(
     (groups_new, kerning_new)
 }
 
-fn make_unique_group_name(name: Name, existing_groups: &Groups) -> Name {
-    if !existing_groups.contains_key(&name) {
+fn make_unique_group_name(
+    name: Name,
+    existing_groups: &Groups,
+    kerning_keys: &BTreeSet<&Name>,
+) -> Name {
+    let is_taken = |n: &Name| existing_groups.contains_key(n) || kerning_keys.contains(n);
+    if !is_taken(&name) {
         return name;
     }
 
     let mut counter = 1;
     let mut new_name = name.clone();
-    while existing_groups.contains_key(&new_name) {
+    while is_taken(&new_name) {
         new_name = Name::new(&format!("{}{}", name, counter)).unwrap();
         counter += 1;
     }
